@@ -759,7 +759,7 @@ def rule_pipeline(run, prog):
     run.require(fi is not None and src is not None, "anchor vanished: File.__init__ / File.source")
     bad = None
     try:
-        for p in ("a.c", "d/e.h", "x.y.c", "noext", "/abs/sp ace.h", ".hidden"):
+        for p in ("a.c", "d/e.h", "x.y.c", "noext", "/abs/sp ace.h", ".hidden", "Dir/Mixed.Case.H", "x.c/"):
             shapes = []
             for source in (None, "int a;\n", ""):
                 b = FormatterBench(prog)
